@@ -207,7 +207,7 @@ pub fn run(ctx: &mut Ctx) {
 
     // ---- random long histories on real and generated voices
     let bundled = env.load_bundled();
-    let n = ctx.n(64, 3000);
+    let n = ctx.n(200, 3000);
     ctx.run_cases("random", n, false, |ctx, rng, idx| {
         let (engine, descr): (Engine, String) = if idx % 2 == 0 {
             (bundled.clone(), "bundled".into())
